@@ -27,6 +27,7 @@ pub struct ServerProp {
 }
 
 const SYS_MODE: u32 = 7;
+const LONG_MODE: u32 = 6;
 const PRODUCTION: usize = 100 * 1024 * 1024;
 const C09_LIMIT: usize = 4096;
 
@@ -39,6 +40,30 @@ struct Scenario {
     mode: String,
     /// per client: `Some(program)` = a real zlink client instead of a byte-level script
     real: Vec<Option<Vec<Exch>>>,
+}
+
+/// Payload size for a big `Len` call: around 2^16, around 2^17, tens of kB, and (scripted clients
+/// only — a real client's writer re-serialises per 256-byte growth step) a little over 1 MiB.
+fn big_pad(t: &mut Tape, allow_mib: bool) -> usize {
+    match t.draw(if allow_mib { 5 } else { 3 }) {
+        0 => 65_536 - 300 + t.draw(600),
+        1 => 20_000 + t.draw(60_000),
+        2 => 131_072 - 300 + t.draw(600),
+        3 => 1_048_576 - 40_000 + t.draw(300_000),
+        _ => 262_144 - 300 + t.draw(600),
+    }
+}
+
+/// Scale mode "big": give some clients one or two calls with a large payload.
+fn add_big_calls(t: &mut Tape, calls: &mut Vec<CallSpec>, allow_mib: bool) {
+    if t.draw(2) == 0 {
+        return;
+    }
+    for _ in 0..1 + t.draw(2) {
+        let at = t.draw(calls.len() + 1);
+        let c = CallSpec::Len { pad: big_pad(t, allow_mib), oneway: t.draw(5) == 4 };
+        calls.insert(at, c);
+    }
 }
 
 /// Program for a real client: partitions its calls into low-level / proxy / chain exchanges.
@@ -85,10 +110,48 @@ fn make_fault(kind: usize, at: usize, t: &mut Tape) -> Fault {
     }
 }
 
+/// One server instance that lives through thousands of short-lived connections, one after the
+/// other (each connects once everything before it has settled): counters, slot tables, id
+/// allocation and per-connection bookkeeping that only go wrong at the N-th connection.
+fn long_lived_scenario(kind: Kind, w: &mut W) -> Scenario {
+    w.cfg = Cfg::plain();
+    w.cfg.chunk = Chunk::Frame;
+    let t = &mut w.tape;
+    let n = [40usize, 300, 1_100, 2_100, 4_200, 5_000, 9_000, 17_000, 33_000, 66_000][t.draw(10)];
+    let flavour = t.draw(4); // 0: all of one kind (kind-specific), 1..3: mixed by tape
+    let e = |oneway: bool| CallSpec::Echo { pad: 2, oneway };
+    let mut clients = Vec::new();
+    // a resident healthy client that talks before and after the crowd
+    clients.push(ClientSpec { cid: 10, calls: vec![e(false), e(false)], faults: vec![], pingpong: true, closes: false, after_quiet: false });
+    for i in 0..n {
+        let cid = 1_000 + i as u32;
+        let pick = if flavour == 0 { 0 } else { t.draw(4) };
+        let spec = match (kind, pick) {
+            (Kind::C09, 0) => ClientSpec { cid, calls: vec![CallSpec::Stream { flags: vec![0, 0], ends: true }], faults: vec![Fault::WriteError { kth: 0 }], pingpong: false, closes: false, after_quiet: true },
+            (Kind::C09, 1) => ClientSpec { cid, calls: vec![e(false)], faults: vec![Fault::Garbage { at: 0 }], pingpong: false, closes: true, after_quiet: true },
+            (Kind::C09, 2) => ClientSpec { cid, calls: vec![e(false), e(false)], faults: vec![Fault::TruncatedThenEof { at: 1, keep: 7 }], pingpong: false, closes: true, after_quiet: true },
+            (Kind::C10, 0) | (Kind::C10, 1) => ClientSpec { cid, calls: vec![CallSpec::Stream { flags: vec![0, 1], ends: true }, e(false)], faults: vec![], pingpong: false, closes: true, after_quiet: true },
+            (Kind::C10, 2) => ClientSpec { cid, calls: vec![CallSpec::Stream { flags: vec![0, 0], ends: true }], faults: vec![Fault::WriteError { kth: 1 }], pingpong: false, closes: false, after_quiet: true },
+            (_, 3) => ClientSpec { cid, calls: vec![e(true), e(false)], faults: vec![], pingpong: false, closes: true, after_quiet: true },
+            _ => ClientSpec { cid, calls: vec![e(false)], faults: vec![], pingpong: false, closes: true, after_quiet: true },
+        };
+        clients.push(spec);
+    }
+    // and a newcomer after the crowd
+    clients.push(ClientSpec { cid: 99, calls: vec![e(false), CallSpec::Fail { oneway: false }, e(false), e(false)], faults: vec![], pingpong: false, closes: false, after_quiet: true });
+    let late = vec![None; clients.len()];
+    let real = vec![None; clients.len()];
+    Scenario { clients, late, singles: vec![], suspends: false, mode: format!("long-lived server: {n} short-lived connections one after the other, flavour {flavour}"), real }
+}
+
 fn gen_scenario(kind: Kind, w: &mut W) -> Scenario {
-    let systematic = w.tape.draw(8) as u32 == SYS_MODE;
-    if systematic {
+    let first = w.tape.draw(8) as u32;
+    if first == SYS_MODE {
         return sys_scenario(kind, w);
+    }
+    if first == LONG_MODE && kind != Kind::C18 && w.tape.draw(64) == 63 && w.tape.draw(8) == 0 {
+        w.stat("long_lived_server_runs");
+        return long_lived_scenario(kind, w);
     }
     w.cfg = Cfg::swarm(&mut w.tape);
     if kind == Kind::C18 {
@@ -115,9 +178,12 @@ fn gen_scenario(kind: Kind, w: &mut W) -> Scenario {
                 let ncalls = if long_client == Some(c) { 30 + t.draw(170) } else if scale == 15 { t.draw(4) } else { t.draw(6) };
                 let is_real = real_mode == 1 || (real_mode >= 2 && t.draw(2) == 1);
                 if is_real {
-                    let calls: Vec<CallSpec> = (0..ncalls)
+                    let mut calls: Vec<CallSpec> = (0..ncalls)
                         .map(|_| if kind == Kind::C10 && t.draw(3) == 2 { gen_conforming_stream(t, if scale == 13 { 150 } else { 4 }) } else { gen_call(t, false, true) })
                         .collect();
+                    if scale == 12 {
+                        add_big_calls(t, &mut calls, false);
+                    }
                     real.push(Some(gen_program(t, calls.len())));
                     clients.push(ClientSpec { cid: 10 + c as u32, calls, faults: vec![], pingpong: false, closes: t.draw(2) == 1, after_quiet: false });
                     late.push(None);
@@ -131,6 +197,9 @@ fn gen_scenario(kind: Kind, w: &mut W) -> Scenario {
                             flags.extend((0..extra).map(|_| 0u8));
                         }
                     }
+                }
+                if scale == 12 {
+                    add_big_calls(t, &mut calls, true);
                 }
                 let mut faults = Vec::new();
                 if kind == Kind::C10 && t.draw(5) == 4 {
@@ -146,7 +215,10 @@ fn gen_scenario(kind: Kind, w: &mut W) -> Scenario {
             let faulty = if scale == 15 { 1 + t.draw(8) } else { 1 + t.draw(2) };
             for c in 0..healthy {
                 let ncalls = if scale == 14 && c == 0 { 30 + t.draw(120) } else { 1 + t.draw(5) };
-                let calls = (0..ncalls).map(|_| gen_call(t, true, true)).collect();
+                let mut calls: Vec<CallSpec> = (0..ncalls).map(|_| gen_call(t, true, true)).collect();
+                if scale == 12 {
+                    add_big_calls(t, &mut calls, true);
+                }
                 clients.push(ClientSpec { cid: 10 + c as u32, calls, faults: vec![], pingpong: t.draw(3) == 2, closes: t.draw(2) == 1, after_quiet: false });
                 late.push(None);
             }
@@ -180,7 +252,8 @@ fn gen_scenario(kind: Kind, w: &mut W) -> Scenario {
                     // single caller: one complete call, appearing once flooder f has been served k replies
                     let f = t.draw(n_flood);
                     let k = t.draw(20);
-                    clients.push(ClientSpec { cid: 10 + c as u32, calls: vec![CallSpec::Echo { pad: t.draw(8), oneway: false }], faults: vec![], pingpong: false, closes: false, after_quiet: false });
+                    let call = if scale == 12 || scale == 13 { CallSpec::Len { pad: big_pad(t, scale == 13), oneway: false } } else { CallSpec::Echo { pad: t.draw(8), oneway: false } };
+                    clients.push(ClientSpec { cid: 10 + c as u32, calls: vec![call], faults: vec![], pingpong: false, closes: false, after_quiet: false });
                     late.push(Some((f, k)));
                     singles.push(c);
                 }
@@ -358,7 +431,7 @@ impl Prop for ServerProp {
                     w.pipes[infos[i].c2s].chunk_override = Some(Chunk::Whole);
                 }
             }
-            let total: usize = sc.clients.iter().map(|c| c.calls.len() * 40 + 200).sum();
+            let total: usize = sc.clients.iter().map(|c| c.calls.iter().map(|k| 40 + if let CallSpec::Len { pad, .. } = k { pad / 32 } else { 0 }).sum::<usize>() + 200).sum();
             w.step_cap = 400 * total as u64 + 50_000;
         }
 
@@ -409,6 +482,10 @@ impl Prop for ServerProp {
                 return Err((format!("{id}/duplicate-connection-id"), format!("{:?}", w.conn_ids)));
             }
         }
+        let mut handled_by_cid: std::collections::HashMap<u32, Vec<u32>> = std::collections::HashMap::new();
+        for h in &run.handled {
+            handled_by_cid.entry(h.cid).or_default().push(h.seq);
+        }
         for (ci, (spec, info)) in sc.clients.iter().zip(infos.iter()).enumerate() {
             let frames = match output_frames(world, info.s2c) {
                 Ok(f) => f,
@@ -420,7 +497,7 @@ impl Prop for ServerProp {
                 }
             }
             let (reference, before) = reference_output(spec.cid, &spec.calls);
-            let handled: Vec<u32> = run.handled.iter().filter(|h| h.cid == spec.cid).map(|h| h.seq).collect();
+            let handled: Vec<u32> = handled_by_cid.get(&spec.cid).cloned().unwrap_or_default();
             if spec.faults.is_empty() {
                 if frames != reference {
                     // classify
@@ -430,6 +507,7 @@ impl Prop for ServerProp {
                             .iter()
                             .map(|c| match c {
                                 CallSpec::Echo { pad, .. } => CallSpec::Echo { pad: *pad, oneway: false },
+                                CallSpec::Len { pad, .. } => CallSpec::Len { pad: *pad, oneway: false },
                                 CallSpec::Fail { .. } => CallSpec::Fail { oneway: false },
                                 CallSpec::Slow { polls, .. } => CallSpec::Slow { polls: *polls, oneway: false },
                                 s => s.clone(),
@@ -617,6 +695,15 @@ impl Prop for ServerProp {
             } else {
                 vec![vec![SYS_MODE, spec]]
             };
+            if spec == 0 && self.kind != Kind::C18 {
+                // long-lived server instances: sizes x flavours (the biggest ones in thorough only)
+                let sizes: u32 = if tier == Tier::Quick { 6 } else { 10 };
+                for n in 0..sizes {
+                    for fl in 0..2u32 {
+                        tapes.push(vec![LONG_MODE, 63, 0, n, fl]);
+                    }
+                }
+            }
             for head in heads {
                 for c in 0..combos {
                     let mut v = head.clone();
@@ -644,10 +731,10 @@ impl Prop for ServerProp {
     fn rule(&self) -> String {
         let common = "Each execution = the real Server::run (one task) over the stub listener with N stub client connections driven by byte-level scripts; the tape decides connection arrival, which client's bytes arrive next and in what pieces, short reads, spurious polls, suspension of the service and of transport writes, and environment events landing inside seam calls (between two iterations of the server loop). Oracle: for every healthy client the frames it received equal the sequential reference execution of the pure service for that client alone (one reply or error per non-oneway call, in order, nothing for oneway, nothing else), every frame carries the client's own id, the service handled each call exactly once in per-connection order, connection ids are distinct, and the server future is still pending. Non-trivial = a partial delivery, short read, stall, suspension or fault actually happened; distinct = distinct event-sequence hash.";
         match self.kind {
-            Kind::C08 => format!("{common} C08: 1..4 clients x 0..5 calls (one world in sixteen: 8..40 clients; one in sixteen: one client with 30..200 calls; a client is, by tape, either a byte-level script or a real zlink client using the low-level API, proxy methods or chains) (plain, oneway, error-producing, slow), pipelined or ping-pong; systematic part enumerates every interleaving of arrivals, frame deliveries and closes for 12 two-client shapes."),
+            Kind::C08 => format!("{common} C08: 1..4 clients x 0..5 calls (one world in sixteen: 8..40 clients; one in sixteen: one client with 30..200 calls; one in sixteen: calls with payloads around 2^16, 2^17, 2^18 and a little over 1 MiB; a client is, by tape, either a byte-level script or a real zlink client using the low-level API, proxy methods or chains) (plain, oneway, error-producing, slow), pipelined or ping-pong; systematic part enumerates every interleaving of arrivals, frame deliveries and closes for 12 two-client shapes."),
             Kind::C09 => format!("{common} C09: 1..3 healthy clients, 1..2 faulty ones (one world in sixteen: 4..29 healthy and 1..8 faulty; one in sixteen: a healthy client with 30..150 calls) (garbage, truncated frame then EOF, EOF mid-burst, read error, write error from the k-th write on, unknown method, wrong parameter types, wrong-shape JSON, oversize unterminated frame against a hook-lowered limit) and a probe client that connects after everything is quiet and must be served. Systematic part: every fault kind x every position in a 3-call script x every interleaving with a healthy client. A quarter of the runs re-execute the scenario without the faulty clients under a different schedule and compare the healthy clients' output bytes."),
             Kind::C10 => format!("{common} C10: clients (scripted or real zlink clients; scale swarm as in C08, plus one world in sixteen with streams of up to 150 items) mix streaming calls (0..4 items, per-item continues flags, ending or never ending) with plain calls pipelined before and behind them; stream items become available at tape-chosen moments; a write failure may hit any reply of one client (then exactly the frames before the failing write must have arrived, and everybody else is unaffected)."),
-            Kind::C18 => format!("{common} C18: 2..5 connections (one world in sixteen: 6..30), flooders with 20..60 pipelined calls and single callers whose one complete call appears after a tape-chosen number of flooder replies, optional short-lived and streaming clients. Fairness monitor over the recorded service order: while the connection set is unchanged and a single caller's complete call is readable, no other connection is served twice; overall at most N x (transitions + 1) other calls are served before it."),
+            Kind::C18 => format!("{common} C18: 2..5 connections (one world in sixteen: 6..30; one in eight: the waiting call is 64 KiB..1.3 MiB long), flooders with 20..60 pipelined calls and single callers whose one complete call appears after a tape-chosen number of flooder replies, optional short-lived and streaming clients. Fairness monitor over the recorded service order: while the connection set is unchanged and a single caller's complete call is readable, no other connection is served twice; overall at most N x (transitions + 1) other calls are served before it."),
         }
     }
 
